@@ -12,21 +12,21 @@ StateOK == (Rec.op = "randstate" /\ Done) =>
     LET rows == DecRows(Rec.post.rows) IN TableauOK(rows, Rec.post.r) /\ DensityOK(rows, Rec.post.r)
 \* tallies over a fixed block of seeds.  Rec.support = number of distinct outputs seen, Rec.expect = size of
 \* the sample space, Rec.chi2m = 1000 * chi-square statistic against the uniform law, Rec.dof = expect - 1.
-\* Acceptance region: every element reached, chi2 <= dof + 6 * sqrt(2 dof)   (6 sigma; evaluated with integers)
+\* Acceptance region: every element reached, chi2 <= dof + 8 * sqrt(2 dof)   (8 sigma; evaluated with integers)
 DistOK == (Rec.op = "dist" /\ Done) =>
     /\ Rec.support = Rec.expect
     /\ Rec.chi2m <= 1000 * Rec.dof + Rec.slack6m
-\* Rec.slack6m = 1000 * 6 * sqrt(2 dof) rounded up is recomputed here: s^2 >= 72e6 * dof  and (s-1000)^2 < 72e6 * dof + ...
+\* Rec.slack6m / 1000 = 8 * sqrt(2 dof) rounded up, re-derived here with integers: s^2 >= 128 dof > (s-1)^2
 SlackOK == (Rec.op = "dist" /\ Done) =>
-    LET s == Rec.slack6m \div 1000 IN s * s >= 72 * Rec.dof /\ (s - 1) * (s - 1) < 72 * Rec.dof
+    LET s == Rec.slack6m \div 1000 IN s * s >= 128 * Rec.dof /\ (s - 1) * (s - 1) < 128 * Rec.dof
 \* all sampled outputs of a tally are valid (checked on the distinct outputs when few enough)
 DistValidOK == (Rec.op = "dist" /\ Done /\ Has("outputs")) =>
     \A j \in 1..Len(Rec.outputs) : ValidMap(DecM(Rec.outputs[j]))
 \* N = 2: the unsigned tables reached include entangling ones (some image has weight 2)
 EntangleOK == (Rec.op = "dist" /\ Done /\ Has("outputs") /\ Rec.name = "random_clifford_n2") =>
     \E j \in 1..Len(Rec.outputs) : \E a \in 1..4 : Weight(Dec(Rec.outputs[j][a])) = 2
-\* fair binary events (sign bits, measurement coins): |c0 - c1| <= 6 sqrt(n)  <=>  (c0-c1)^2 <= 36 n
-FairOK == (Rec.op = "fair" /\ Done) => (Rec.c0 - Rec.c1) * (Rec.c0 - Rec.c1) <= 36 * (Rec.c0 + Rec.c1) /\ Rec.c0 + Rec.c1 >= 1000
+\* fair binary events (sign bits, measurement coins): |c0 - c1| <= 8 sqrt(n)  <=>  (c0-c1)^2 <= 64 n
+FairOK == (Rec.op = "fair" /\ Done) => (Rec.c0 - Rec.c1) * (Rec.c0 - Rec.c1) <= 64 * (Rec.c0 + Rec.c1) /\ Rec.c0 + Rec.c1 >= 1000
 \* gates without maps are resampled at every call: two calls under one seed differ for some seed of the block
 ResampleOK == (Rec.op = "resample" /\ Done) => Rec.differ >= 1 /\ Rec.compile_refused = TRUE
 NoCrash16 == ~Has("exc")
